@@ -37,6 +37,7 @@ def run(ctx: RuleContext):
     ctx.sub(check_determinacy, ctx)
     ctx.sub(check_by_reference, ctx)
     ctx.sub(check_sentinels_by_reference, ctx)
+    ctx.sub(check_no_mutable_state_in_namespace, ctx)
 
 
 def _reducer(ctx):
@@ -136,7 +137,8 @@ def reducer_plan(ctx, red):
     if norm(fn_e) == f"{x}.dtype.__getitem__":
         item = args_e.elts[0] if isinstance(args_e, ast.Tuple) and len(args_e.elts) == 1 else None
         need(item is not None, "C20: reducer arguments not of the form ((...),)")
-        return gen, [ast.parse(f"{x}.dtype", mode="eval").body], [item], None
+        items = _resolve_local(red, item) if isinstance(item, ast.Name) else [item]
+        return gen, [ast.parse(f"{x}.dtype", mode="eval").body], items, None
     loader = m.resolve_expr_static(red, fn_e)
     if loader is not None and hasattr(loader, "node") and isinstance(args_e, ast.Tuple) and len(args_e.elts) == 2:
         cats = _resolve_local(red, args_e.elts[0])
@@ -268,8 +270,40 @@ def check_determinacy(ctx):
     if loader is not None:
         ctx.saw(loader)
         _check_loader(ctx, red, loader)
-    need(len(items) == 1, "C20.3: the replayed item has several definitions")
-    item = items[0]
+    need(items, "C20.3: what the reducer replays was not found")
+    errs = []
+    n0 = len(ctx.findings)
+    for item in items:
+        if isinstance(item, ast.Constant) and item.value is None:
+            continue  # a placeholder that is replaced before the return
+        if isinstance(item, ast.Call) and norm(item.func) == "getattr" and len(item.args) >= 2 and norm(item.args[0]) == x and isinstance(item.args[1], ast.Constant):
+            item = ast.copy_location(ast.Attribute(value=ast.Name(id=x, ctx=ast.Load()), attr=item.args[1].value, ctx=ast.Load()), item)
+        try:
+            _check_replayed_item(ctx, m, red, mac, ma, x, gen, item)
+        except AnalysisError as e:
+            errs.append(str(e))
+    if errs and len(ctx.findings) == n0:
+        raise AnalysisError("; ".join(errs))
+
+
+def _check_replayed_item(ctx, m, red, mac, ma, x, gen, item):
+    # a lookup in a module-level table filled by _make_array (`_subscriptions[x]`): what is stored there
+    # is judged like a field of the class dictionary
+    if isinstance(item, ast.Subscript) and isinstance(item.value, ast.Name) and norm(item.slice) == x:
+        b_ = m.resolve_name(red, item.value.id)
+        if b_.kind == "modvar":
+            stores = [st for st in ast.walk(ma.node) if isinstance(st, ast.Assign) and isinstance(st.targets[0], ast.Subscript) and norm(st.targets[0].value) == item.value.id]
+            need(len(stores) == 1 and isinstance(stores[0].value, ast.Tuple) and len(stores[0].value.elts) == 2,
+                 f"C20.3: what _make_array records in the table `{item.value.id}` was not recognised")
+            a0, a1 = stores[0].value.elts
+            ok0 = isinstance(a0, ast.Name) and a0.id == ma.params[0] and not _reassigned_before(ma, a0.id, stores[0])
+            ok1 = isinstance(a1, ast.Name) and (a1.id == ma.params[1] and not _reassigned_before(ma, a1.id, stores[0]) or (
+                len(c05._assignments_to(ma, a1.id)) == 1 and isinstance(c05._assignments_to(ma, a1.id)[0][1], ast.Name) and c05._assignments_to(ma, a1.id)[0][1].id == ma.params[1]))
+            if ok0 and ok1:
+                ctx.ok("C20.3", red.qualname, f"replays what _make_array recorded in `{item.value.id}`: the constructor's own arguments (only while that table knows the class)")
+            else:
+                ctx.bad("C20.3", ma, stores[0], f"the table `{item.value.id}` the reducer replays from does not hold the arguments `_make_array` received")
+            return
     fields, dict_call = class_dict_fields(m, ma)
     ctx.counters["class_dict_fields"] = len(fields)
     ctx.floor("C20.3", "class_dict_fields", 6)
@@ -371,6 +405,36 @@ def _reassigned_before(f, name, node) -> bool:
         if st.lineno < node.lineno:
             return True
     return False
+
+
+def check_no_mutable_state_in_namespace(ctx):
+    """C20.6: 'loading never changes what the original accepts'.  By-value serialisers (cloudpickle)
+    ship the class namespace and, when the payload is loaded in the process that owns the class, write
+    that namespace back onto the original.  A field that jaxtyping itself re-assigns after the class was
+    created (the transparency flag set by `make_transparent`) must therefore not be part of the
+    namespace: loading an older payload would silently reset it."""
+    m = ctx.model
+    ma = m.func("_array_types._make_array")
+    fields, dict_call = class_dict_fields(m, ma)
+    mutated = {}
+    for fn_ in m.all_functions(include_typeguard=False):
+        if fn_.module.short != "_array_types" or not fn_.params:
+            continue
+        recv = fn_.params[0]
+        for st in walk_scope(fn_.node):
+            tgts = st.targets if isinstance(st, ast.Assign) else [st.target] if isinstance(st, (ast.AugAssign, ast.AnnAssign)) else []
+            for t in tgts:
+                if isinstance(t, ast.Attribute) and isinstance(t.value, ast.Name) and t.value.id == recv and fn_.cls is not None and m.is_metaclass(fn_.cls):
+                    mutated.setdefault(t.attr, (fn_, st))
+    ctx.counters["fields_reassigned_after_creation"] = len(mutated)
+    clash = sorted(set(fields) & set(mutated))
+    if clash:
+        fn_, st = mutated[clash[0]]
+        ctx.bad("C20.6", ma, dict_call, f"the class namespace of every annotation carries `{clash[0]}`, which {fn_.qualname} re-assigns later (`{short(st, 50)}`): a by-value "
+                "serialiser writes the namespace of an older payload back onto the original class when it is loaded in the owning process, silently undoing that change",
+                construct=f"namespace field re-assigned after creation: {clash[0]}")
+    else:
+        ctx.ok("C20.6", ma.qualname, f"none of the {len(fields)} namespace fields is re-assigned after the class was created (re-assigned attributes: {sorted(mutated)})")
 
 
 def check_by_reference(ctx):
